@@ -155,3 +155,72 @@ SPEC = PropSpec(
     stubs=[],
     technique="CrossHair/z3 bounded symbolic execution over symbolic graph arrangements, real pickle in between",
 )
+
+
+# ---------------------------------------------------------------------------------------------
+# states that are falsy but not None: standard unpickling calls __setstate__ for every state that is not None
+FALSY = [None, 0, False, 0.0, "", (), [], {}, {"k": 0}]
+
+
+def _mk_state_class(name, base, state_idx, log):
+    def __getstate__(self, remote=False):
+        log.append((name, "gs", bool(remote)))
+        return FALSY[state_idx]
+
+    def __setstate__(self, state):
+        # remote_reduce hands dict states over as an OrderedDict (a dict subclass): compared as a mapping
+        log.append((name, "ss", repr(sorted(state.items())) if isinstance(state, dict) else repr(state)))
+        self.restored = True
+    ns = {"__module__": "vf_dyn_classes", "__qualname__": name, "__getstate__": __getstate__, "__setstate__": __setstate__}
+    cls = type.__call__(type(base), name, (base,), ns)
+    setattr(pk.DYN, name, cls)
+    return cls
+
+
+def h_state(state, marker, pos):
+    with notrace():
+        snap = pk.snapshot()
+        try:
+            state_, marker_, pos_ = _c(state, len(FALSY)), _c(marker, 2), _c(pos, 3)
+            ev("state", state_, marker_, pos_)
+            import pickle
+            log_r, log_s = [], []
+            base = rp.SupportRemoteGetState if marker_ else object
+            R = _mk_state_class("RS", base, state_, log_r)
+
+            class _Twin:         # same shape, never remote-aware: what standard unpickling does with this state
+                pass
+            Tw = _mk_state_class("TW", object, state_, log_s)
+            # strip the 'remote' parameter from the twin so that it is a plain class
+            Tw.__getstate__ = (lambda f: (lambda self: f(self)))(Tw.__getstate__)
+
+            def wrap(x):
+                return x if pos_ == 0 else ([x, 1] if pos_ == 1 else {"h": (x,)})
+            std = _attempt(lambda: pickle.loads(pickle.dumps(wrap(Tw.__new__(Tw)), 4)))
+            got = _attempt(lambda: rp.loads(rp.dumps(wrap(R.__new__(R)))))
+            if std[0] != "ok":
+                return Outcome(None, False)
+            if got[0] != "ok":
+                return Outcome("c14.state.loads-raises-%s" % got[1], True)
+            want_ss = [e[2] for e in log_s if e[1] == "ss"]
+            have_ss = [e[2] for e in log_r if e[1] == "ss"]
+            if [e for e in log_r if e[1] == "gs"] != [("RS", "gs", True)]:
+                return Outcome("c14.state.getstate-remote-not-exactly-once", True)
+            if want_ss != have_ss:
+                if want_ss and not have_ss:
+                    return Outcome("c14.state.setstate-skipped-for-falsy-state", True, "state=%r" % (FALSY[state_],))
+                return Outcome("c14.state.restored-differently-from-standard-unpickling", True, "std=%r remote=%r" % (want_ss, have_ss))
+            return Outcome(None, True)
+        finally:
+            pk.restore(snap)
+
+
+H_STATE = Harness(
+    "state", "vf.props.c14:h_state", OrderedDict([("state", (0, len(FALSY) - 1)), ("marker", (0, 1)), ("pos", (0, 2))]),
+    tiers={"quick": {"partition": ["marker"], "timeout": 120, "twin_fixed": {"marker": 1}}},
+    functions=_FUNCS,
+)
+
+SPEC.harnesses.append(H_STATE)
+SPEC.assumptions.append("harness 'state': classes whose remote state is one of None, 0, False, 0.0, '', (), [], {}, {'k': 0}; the reference is a plain twin class "
+                        "through the standard pickle module (BUILD is emitted for every state that is not None)")
